@@ -38,4 +38,89 @@ theorem traverse_closures [Inhabited S] (fe : S → Int → Option T → Option 
   rw [RefineTrav.traverse_refines (wrapE fe) (wrapL fl) ids pids r hR (some s) F, spec_wrap fe fl ge gl he hl r none s]
   rfl
 
+/-! ### closures that may raise outside the tree: the same statement under a state invariant `P` and a node predicate `ok` -/
+
+mutual
+theorem spec_wrap_on (P : S → Prop) (ok : Int → Prop)
+    (fe : S → Int → Option T → Option (S × T)) (fl : S → Int → List K → Option (S × K))
+    (ge : S → Int → Option T → S × T) (gl : S → Int → List K → S × K)
+    (he : ∀ s n pv, P s → ok n → fe s n pv = some (ge s n pv) ∧ P (ge s n pv).1)
+    (hl : ∀ s n ks, P s → ok n → fl s n ks = some (gl s n ks) ∧ P (gl s n ks).1) :
+    ∀ (r : Rose) (pv : Option T) (s : S), P s → (∀ j ∈ r.ids, ok j) →
+      spec (wrapE fe) (wrapL fl) r pv (some s) = (some (spec ge gl r pv s).1, (spec ge gl r pv s).2) ∧ P (spec ge gl r pv s).1
+  | .node i ks, pv, s, hP, hok => by
+    have hi : ok i := hok i (by simp [Rose.ids])
+    obtain ⟨e1, p1⟩ := he s i pv hP hi
+    obtain ⟨e2, p2⟩ := specRev_wrap_on P ok fe fl ge gl he hl ks (ge s i pv).2 (ge s i pv).1 p1
+      (fun j hj => hok j (by simp [Rose.ids, hj]))
+    obtain ⟨e3, p3⟩ := hl (specRev ge gl ks (ge s i pv).2 (ge s i pv).1).1 i (specRev ge gl ks (ge s i pv).2 (ge s i pv).1).2 p2 hi
+    refine ⟨?_, by simpa [spec] using p3⟩
+    simp only [spec, wrapE, e1]
+    rw [e2]
+    simp only [wrapL, e3]
+theorem specRev_wrap_on (P : S → Prop) (ok : Int → Prop)
+    (fe : S → Int → Option T → Option (S × T)) (fl : S → Int → List K → Option (S × K))
+    (ge : S → Int → Option T → S × T) (gl : S → Int → List K → S × K)
+    (he : ∀ s n pv, P s → ok n → fe s n pv = some (ge s n pv) ∧ P (ge s n pv).1)
+    (hl : ∀ s n ks, P s → ok n → fl s n ks = some (gl s n ks) ∧ P (gl s n ks).1) :
+    ∀ (ks : List Rose) (cur : T) (s : S), P s → (∀ j ∈ idsL ks, ok j) →
+      specRev (wrapE fe) (wrapL fl) ks cur (some s) = (some (specRev ge gl ks cur s).1, (specRev ge gl ks cur s).2) ∧
+      P (specRev ge gl ks cur s).1
+  | [], _, s, hP, _ => by simp [specRev, hP]
+  | r :: rs, cur, s, hP, hok => by
+    obtain ⟨e1, p1⟩ := specRev_wrap_on P ok fe fl ge gl he hl rs cur s hP (fun j hj => hok j (by simp [idsL, hj]))
+    obtain ⟨e2, p2⟩ := spec_wrap_on P ok fe fl ge gl he hl r (some cur) (specRev ge gl rs cur s).1 p1
+      (fun j hj => hok j (by simp [idsL, hj]))
+    refine ⟨?_, by simpa [specRev] using p2⟩
+    simp only [specRev]
+    rw [e1, e2]
+end
+
+theorem traverse_closures_on [Inhabited S] (P : S → Prop) (ok : Int → Prop)
+    (fe : S → Int → Option T → Option (S × T)) (fl : S → Int → List K → Option (S × K))
+    (ge : S → Int → Option T → S × T) (gl : S → Int → List K → S × K)
+    (he : ∀ s n pv, P s → ok n → fe s n pv = some (ge s n pv) ∧ P (ge s n pv).1)
+    (hl : ∀ s n ks, P s → ok n → fl s n ks = some (gl s n ks) ∧ P (gl s n ks).1)
+    (ids pids : List Int) (r : Rose) (hR : Represents r ids pids) (s : S) (hP : P s) (hok : ∀ j ∈ r.ids, ok j) (F : Nat) :
+    unwrapCb (traverse_dfs (wrapE fe) (wrapL fl) (2 * r.size + F + 1) (ids, pids) r.id (some s)) = some (spec ge gl r none s) := by
+  rw [RefineTrav.traverse_refines (wrapE fe) (wrapL fl) ids pids r hR (some s) F,
+    (spec_wrap_on P ok fe fl ge gl he hl r none s hP hok).1]
+  rfl
+
+/-! ### change of state representation: callbacks over `S` and over `S'` that commute with `abs` compute related results -/
+
+mutual
+theorem spec_abs {S' : Type} (abs : S → S') (P : S → Prop) (ok : Int → Prop)
+    (ge : S → Int → Option T → S × T) (gl : S → Int → List K → S × K)
+    (ge' : S' → Int → Option T → S' × T) (gl' : S' → Int → List K → S' × K)
+    (he : ∀ s n pv, P s → ok n → ge' (abs s) n pv = (abs (ge s n pv).1, (ge s n pv).2) ∧ P (ge s n pv).1)
+    (hl : ∀ s n ks, P s → ok n → gl' (abs s) n ks = (abs (gl s n ks).1, (gl s n ks).2) ∧ P (gl s n ks).1) :
+    ∀ (r : Rose) (pv : Option T) (s : S), P s → (∀ j ∈ r.ids, ok j) →
+      spec ge' gl' r pv (abs s) = (abs (spec ge gl r pv s).1, (spec ge gl r pv s).2) ∧ P (spec ge gl r pv s).1
+  | .node i ks, pv, s, hP, hok => by
+    have hi : ok i := hok i (by simp [Rose.ids])
+    obtain ⟨e1, p1⟩ := he s i pv hP hi
+    obtain ⟨e2, p2⟩ := specRev_abs abs P ok ge gl ge' gl' he hl ks (ge s i pv).2 (ge s i pv).1 p1
+      (fun j hj => hok j (by simp [Rose.ids, hj]))
+    obtain ⟨e3, p3⟩ := hl (specRev ge gl ks (ge s i pv).2 (ge s i pv).1).1 i (specRev ge gl ks (ge s i pv).2 (ge s i pv).1).2 p2 hi
+    refine ⟨?_, by simpa [spec] using p3⟩
+    simp only [spec, e1]
+    rw [e2, e3]
+theorem specRev_abs {S' : Type} (abs : S → S') (P : S → Prop) (ok : Int → Prop)
+    (ge : S → Int → Option T → S × T) (gl : S → Int → List K → S × K)
+    (ge' : S' → Int → Option T → S' × T) (gl' : S' → Int → List K → S' × K)
+    (he : ∀ s n pv, P s → ok n → ge' (abs s) n pv = (abs (ge s n pv).1, (ge s n pv).2) ∧ P (ge s n pv).1)
+    (hl : ∀ s n ks, P s → ok n → gl' (abs s) n ks = (abs (gl s n ks).1, (gl s n ks).2) ∧ P (gl s n ks).1) :
+    ∀ (ks : List Rose) (cur : T) (s : S), P s → (∀ j ∈ idsL ks, ok j) →
+      specRev ge' gl' ks cur (abs s) = (abs (specRev ge gl ks cur s).1, (specRev ge gl ks cur s).2) ∧ P (specRev ge gl ks cur s).1
+  | [], _, s, hP, _ => by simp [specRev, hP]
+  | r :: rs, cur, s, hP, hok => by
+    obtain ⟨e1, p1⟩ := specRev_abs abs P ok ge gl ge' gl' he hl rs cur s hP (fun j hj => hok j (by simp [idsL, hj]))
+    obtain ⟨e2, p2⟩ := spec_abs abs P ok ge gl ge' gl' he hl r (some cur) (specRev ge gl rs cur s).1 p1
+      (fun j hj => hok j (by simp [idsL, hj]))
+    refine ⟨?_, by simpa [specRev] using p2⟩
+    simp only [specRev]
+    rw [e1, e2]
+end
+
 end RefineClosures
